@@ -126,9 +126,11 @@ Example oracle_on_model_examples :
              [CCommit 8; CReplicateOk; CAck]; [CTransition]; [CStandbyWrite 11]];
      IClust [[CCommit 0; CReplicateOk]; [CCommit 2; CReplicateOk; CAck]; [CStandbyRestart]; [CCommit 4; CReplicateOk; CAck]; [CTransition]; [CStandbyWrite 6]; [CCommit 7]];
      IClust [[]; [CCommit 0]; [CTransition]; [CReplicateOk]; [CAck]; [CTransition]];
+     IClust [[CCommit 0; CReplicateOk]; [CCommit 4; CReplicateOk; CCommit 5; CReplicateOk; CAck]; [CReplicateOk]; [CTransition]; [CStandbyWrite 10]];
      IRepl [(0, 0)] [RCommit 0 1; RPull; RCommit 1 3; RCommit 0 4; RPull; RCommit 1 6; RPull];
      IRepl [(0, 0)] [RPullFail; RCommitPushFail 0 2; RCommitPushFail 1 3; RPullFail; RPullFail; RPull; RCommit 0 7; RPull];
-     IRepl [(0, 0)] [RPull; RCommit 2 2; RCommit 2 3; RPull; RPull]] = true.
+     IRepl [(0, 0)] [RPull; RCommit 2 2; RCommit 2 3; RPull; RPull];
+     IRepl [(0, 0)] [RCommit 1 1; RTag 1; RPull; RDelete 1; RPull; RCommit 1 6; RTag 15; RCommit 2 8; RPull; RDelete 1; RDelete 2; RPull]] = true.
 Proof. vm_compute. reflexivity. Qed.
 
 (* non-vacuity: a run that commits, replicates, acknowledges and transitions *)
@@ -159,6 +161,14 @@ Proof.
   - destruct (IH H) as [E|E]; [left; exact E | right; right; exact E].
 Qed.
 
+Lemma remove_head_in b h p : In p (remove_head b h) -> In p h.
+Proof.
+  induction h as [|[b' c'] h IH]; cbn; [intros []|].
+  destruct (b' =? b); cbn.
+  - intros H. right. apply IH. exact H.
+  - intros [H|H]; [left; exact H | right; apply IH; exact H].
+Qed.
+
 Definition rinv (s : repl) : Prop := incl (r_remote s) (r_remote_hist s) /\ incl (r_replica s) (r_remote_hist s).
 
 Lemma rinv_step s e : rinv s -> rinv (repl_step s e).
@@ -166,6 +176,7 @@ Proof.
   intros [H1 H2]. destruct e; cbn; split; cbn; try assumption.
   - intros p Hp. destruct (set_head_in _ _ _ _ Hp) as [->|Hin]; [left; reflexivity | right; apply H1; exact Hin].
   - intros p Hp. right. apply H2. exact Hp.
+  - intros p Hp. apply H1. apply (remove_head_in _ _ _ Hp).
 Qed.
 
 (* A read replica only ever shows branch heads the remote actually had — for every interleaving of
@@ -178,6 +189,28 @@ Proof.
   { induction es0 as [|e es0 IH]; intros s Hs; [exact Hs|]. cbn. apply IH. apply rinv_step. exact Hs. }
   destruct (G es (init_repl h0)) as [_ H2]; [split; cbn; apply incl_refl|]. apply H2. exact Hp.
 Qed.
+
+(* Right after a successful pull the replica shows exactly the remote's current heads: a branch deleted on the
+   remote is gone from the replica, whatever tags exist. *)
+Lemma heads_real_refl h : heads_real h h = true.
+Proof. unfold heads_real. apply forallb_forall. intros p Hp. apply pair_mem_spec. exact Hp. Qed.
+
+Theorem replica_after_pull_current :
+  forall s, let s' := repl_step s RPull in
+    r_replica s' = r_remote s' /\ heads_real (r_replica s') (r_remote s') = true.
+Proof. intros s. cbn. split; [reflexivity | apply heads_real_refl]. Qed.
+
+(* a deleted branch has no head on the remote and none on the replica after the next pull *)
+Lemma get_remove_head b h : get_head b (remove_head b h) = None.
+Proof.
+  induction h as [|[b' c'] h IH]; cbn; [reflexivity|].
+  destruct (b' =? b) eqn:E; cbn; [exact IH | rewrite E; exact IH].
+Qed.
+
+Theorem deleted_branch_gone_after_pull :
+  forall s b, let s' := repl_step (repl_step s (RDelete b)) RPull in
+    get_head b (r_remote s') = None /\ get_head b (r_replica s') = None.
+Proof. intros s b. cbn. split; apply get_remove_head. Qed.
 
 Lemma get_set_head b c h : get_head b (set_head b c h) = Some c.
 Proof.
